@@ -420,9 +420,39 @@ def p_enumerate(interp, x):
     return V.SymSeq(s.length, lambda i: (i, s.get(i)))
 
 
-@prim("builtins.min", "builtins.max")
-def p_minmax(interp, *a):
-    raise Unsupported("min/max")
+def _minmax(interp, a, is_max):
+    if len(a) == 1:
+        if isinstance(a[0], V.Shape) and a[0].tail is None:
+            xs = list(a[0].lead)
+        else:
+            xs = V.concrete_iter(a[0])
+            if xs is None:
+                raise Unsupported("min/max over a symbolic iterable")
+    else:
+        xs = list(a)
+    if all(isinstance(x, (int, float)) for x in xs):
+        return max(xs) if is_max else min(xs)
+    r = xs[0]
+    for x in xs[1:]:
+        if not (_num(r) and _num(x)):
+            raise Unsupported("min/max of non-numbers")
+        lr, lx = lift(r), lift(x)
+        if z3.is_int(lr) and z3.is_real(lx):
+            lr = z3.ToReal(lr)
+        if z3.is_real(lr) and z3.is_int(lx):
+            lx = z3.ToReal(lx)
+        r = z3.If(lx > lr, lx, lr) if is_max else z3.If(lx < lr, lx, lr)
+    return r
+
+
+@prim("builtins.max")
+def p_max(interp, *a):
+    return _minmax(interp, a, True)
+
+
+@prim("builtins.min")
+def p_min(interp, *a):
+    return _minmax(interp, a, False)
 
 
 @prim("math.ceil")
